@@ -26,7 +26,7 @@ def sib_bytes(kind, key):
 
 # the serialized form of a metadata sibling: besides the short client id, forms whose fields sit on either side of the short/long TLV header
 # boundary (value of 254 / 255 / 256 octets incl. the terminating NUL), with machine id, sequence number and request time present or not
-META_LADDER = [dict(cl=n) for n in (252, 253, 254, 255, 256)] + [dict(cl=4, ma=n) for n in (253, 254, 255)] + [dict(cl=254, ma=254, seq=7), dict(cl=3, seq=255, rt=1500000000123456), dict(cl=3, ma=2, seq=65536, rt=1)]
+META_LADDER = [dict(cl=n) for n in (252, 253, 254, 255, 256)] + [dict(cl=4, ma=n) for n in (253, 254, 255)] + [dict(cl=254, ma=254, seq=7), dict(cl=3, seq=255, rt=1500000000123456), dict(cl=3, ma=2, seq=65536, rt=1), dict(cl=4, ext="tag"), dict(cl=6, ext="len"), dict(cl=4, ext="tag", seq=9)]
 META_MODE = {"n": 0}
 
 
@@ -39,7 +39,10 @@ def meta_form(tag):
     f = META_LADDER[(h >> 3) % len(META_LADDER)]
     cl = (tag + b"-" * 300)[:f["cl"] - 1]
     ma = (b"m" + tag + b"." * 300)[:f["ma"] - 1] if "ma" in f else None
-    return ksi.metadata_payload(cl, machine=ma, seq=f.get("seq"), reqtime=f.get("rt"), padding="auto")
+    body = ksi.metadata_payload(cl, machine=ma, seq=f.get("seq"), reqtime=f.get("rt"), padding="auto")
+    if f.get("ext"):        # an unknown element flagged non-critical (and forward) whose header is the long form: tag above 0x1f, or more than 255 octets
+        body += ksi.tlv(0x25, b"ex", nc=True, fw=(h >> 9) & 1 == 1) if f["ext"] == "tag" else ksi.tlv(0x1d, b"x" * 300, nc=True)
+    return body
 
 
 def mk_links(links, c=None):
